@@ -15,7 +15,7 @@ RULE = (
     "for EVERY k from 0 to the number of statements of the flush (and beyond: no failure); (b) an "
     "exception raised by the before_flush, after_flush or after_flush_postexec listener; (c) real "
     "IntegrityErrors (duplicate primary key on INSERT or on a primary-key UPDATE). Families: 2 database "
-    "setups x 9 transactions x all fault positions x 6 continuations (rollback; rollback+reads; use "
+    "setups x 10 transactions x all fault positions x 6 continuations (rollback; rollback+reads; use "
     "while the rollback is pending; re-run of the same changes + flush + commit, compared with a "
     "failure-free reference run executed on the implementation), the same inside a savepoint with "
     "handle.rollback / Session.rollback / handle.commit continuations, after a savepoint that was released "
@@ -90,12 +90,14 @@ _TXNS = [
     [[NEW, 2, 3, 0], [FLUSH], [SETPK, 2, 4], [SETV, 0, 3]],  # a new object that switches its key
     [[DEL, 0], [FLUSH], [NEW, 2, 1, 3], [SETV, 1, 0]],
     [[SETV, 0, 1], [FLUSH], [DEL, 0], [NEW, 2, 3, 2]],
+    [[NEW, 2, 3, 0], [FLUSH], [DEL, 2], [FLUSH], [SETV, 0, 3]],   # inserted and deleted in the same transaction
 ]
 # over the empty setup (objects from index 0)
 _TXNS0 = [
     [[NEW, 0, 1, 0], [NEW, 1, 2, 1], [NEW, 2, 3, 2]],
     [[NEW, 0, 1, 0], [FLUSH], [SETV, 0, 2], [NEW, 1, 2, 1]],
     [[NEW, 0, 1, 0], [NEW, 1, 1, 1]],
+    [[NEW, 0, 1, 0], [FLUSH], [DEL, 0], [FLUSH], [NEW, 1, 2, 1]],
 ]
 
 
